@@ -39,6 +39,7 @@ DIMS = {
     "grp": ["g05", "none", "nested", "gradgrp", "reusedgrp", "siblings", "emptyglyph"],
     "seqlen": [1, 2, 3],
     "nglyphs": [2, 1, 3],
+    "where": ["other", "same", "both"],
 }
 
 PL = {
@@ -73,7 +74,9 @@ def relevant(dev):
     # stack drops it; rad_* matter unless the group structure drops the oval
     if dev.get("stack") == "one" and any(k.startswith("lin_") for k in dev):
         return False
-    if dev.get("nglyphs") == 1 and any(k in dev for k in ("place", "copy_paint", "grp", "seqlen")) :
+    if dev.get("nglyphs") == 1 and dev.get("where") != "same" and any(k in dev for k in ("place", "copy_paint")):
+        return False
+    if dev.get("nglyphs") == 1 and any(k in dev for k in ("grp", "seqlen")):
         return False
     if dev.get("nglyphs") == 1 and any(k.startswith("rad_") for k in dev):
         return False
@@ -201,11 +204,16 @@ def mk(a):
     else:
         a_nodes = [donor, Shape(P(OUT["tri"], aff.tr(20, 15)), Solid("yellow"), label="tri-y"), blob,
                    Shape(P(OUT["quad"], aff.tr(30, 5)), Solid("#0000FF80"), label="quad-b")]
+    where = a.get("where", "other")
+    if where in ("same", "both"):
+        a_nodes = a_nodes + [Shape(copy_d, copy_paint, opacity=copy_op, label="copy-in-A")]
     A = Glyph((0xE000,), vb, a_nodes)
 
     tri = Shape(P(OUT["tri"], aff.tr(40, 50)), Solid("green"), label="tri")
     ov = Shape(P(OUT["oval"], aff.tr(30, 40)), rad, label="oval-rad")
     copy = Shape(copy_d, copy_paint, opacity=copy_op, label="copy")
+    if where == "same":  # glyph B keeps a shape in that slot, but not a copy of the donor
+        copy = Shape(P(OUT["quad"], aff.tr(40, 5)), Solid("blue"), label="not-a-copy")
     g = a["grp"]
     extra_glyphs = []
     if g == "none":
